@@ -294,6 +294,8 @@ def run(ctx):
     from rules import wiring as _w
     _w.params_used(ctx, "C20.c", _w.funcs_of(m, "plotting", "plotting.common", "plotting.matplotlib", "plotting.plotly", "plotting.ascii"),
                    "plotting:options-read")
+    _w.same_name_forwarding(ctx, "C20.c", m, _w.funcs_of(m, "plotting", "plotting.common", "plotting.matplotlib", "plotting.plotly", "plotting.ascii"),
+                   "plotting:options-forwarded")
 
     # ---- C20.d labels ------------------------------------------------------------------------------------------------------------------
     ctx.rule("C20.d", "bar / scatter / line / fill / step / map / image / bar3d call _add_labels; defaults are the histogram's title and axis names", 9)
